@@ -28,7 +28,11 @@ func main() {
 	noEvidence := flag.Bool("no-evidence", false, "do not write evidence/reports (used by the mutant self-test)")
 	list := flag.Bool("list", false, "list function keys")
 	selftest := flag.String("selftest", "", "JSON file with mutant self-test results to merge into the evidence (thorough tier)")
+	overlay := flag.String("overlay", "", "directory of replacement files (paths relative to -repo) analysed in place of the working-tree files (mutant self-test only)")
 	flag.Parse()
+	if *overlay != "" && !*noEvidence {
+		infraFail("-overlay is only allowed together with -no-evidence")
+	}
 
 	defer func() {
 		if r := recover(); r != nil {
@@ -40,7 +44,10 @@ func main() {
 		}
 	}()
 
-	p := Load(*repo)
+	p := Load(*repo, *overlay)
+	if p.overlayJSON != "" {
+		defer os.Remove(p.overlayJSON)
+	}
 	if *list {
 		var keys []string
 		for _, f := range p.Funcs {
